@@ -75,7 +75,46 @@ impl EvData {
 // ---------------------------------------------------------------------------------------------
 // entry points
 
+/// The payload of the scripted panic (raised with `resume_unwind`, so no panic hook runs).
+struct ScriptedPanic;
+
+struct OnDrop<F: FnMut()>(F);
+
+impl<F: FnMut()> Drop for OnDrop<F> {
+    fn drop(&mut self) {
+        (self.0)()
+    }
+}
+
+/// Make the emission in the case's thread state.
 fn dispatch<TE: Emitter, TF: Filter, TC: Ctxt, TK: Clock, TR: Rng, TW: Filter>(
+    rt: &Runtime<TE, TF, TC, TK, TR>,
+    c: &Case,
+    ev: &EvData,
+    when: Option<&TW>,
+) {
+    match c.state {
+        ThreadState::Normal => dispatch_now(rt, c, ev, when),
+        ThreadState::Unwinding => {
+            let mut ran_while_panicking = false;
+            let r = std::panic::catch_unwind(std::panic::AssertUnwindSafe(|| {
+                let _guard = OnDrop(|| {
+                    ran_while_panicking = std::thread::panicking();
+                    dispatch_now(rt, c, ev, when)
+                });
+                std::panic::resume_unwind(Box::new(ScriptedPanic));
+            }));
+            match r {
+                Err(p) if p.is::<ScriptedPanic>() => {}
+                Err(p) => std::panic::resume_unwind(p),
+                Ok(()) => unreachable!("the scripted panic always unwinds"),
+            }
+            assert!(ran_while_panicking, "harness: the guard did not run during the unwind");
+        }
+    }
+}
+
+fn dispatch_now<TE: Emitter, TF: Filter, TC: Ctxt, TK: Clock, TR: Rng, TW: Filter>(
     rt: &Runtime<TE, TF, TC, TK, TR>,
     c: &Case,
     ev: &EvData,
@@ -614,6 +653,16 @@ pub fn classify(c: &Case, m: &Model, cx: &mut Cx) {
     cx.class_if(c.dest.has_wrap(), "wrap");
     cx.class_if(m.uses_when, "call-site-filter");
     cx.class_if(c.entry.is_macro(), "macro-entry");
+    match c.state {
+        ThreadState::Normal => cx.class("thread-state:normal"),
+        ThreadState::Unwinding => {
+            cx.class("thread-state:unwinding");
+            cx.class(if c.entry.is_macro() { "thread-state:unwinding/macro-entry" } else { "thread-state:unwinding/generic-entry" });
+            cx.class(if m.accepted { "thread-state:unwinding/accepted" } else { "thread-state:unwinding/rejected" });
+            cx.class_if(m.uses_when, "thread-state:unwinding/call-site-filter");
+            cx.class_if(m.main.nested.iter().any(|n| !n.from_filter), "thread-state:unwinding/nested-emission");
+        }
+    }
     cx.class(match c.entry {
         Entry::Core => "entry:core-emit",
         Entry::RtEmit => "entry:runtime-emit",
